@@ -52,6 +52,8 @@ def run_model(ctx, name, text, harness_cfg, binp, timeout, simulate=None, depth=
     return r, trees, res
 
 def run(ctx):
+    from props import net as _net
+    _net.maybe_replay(ctx, LEVEL)
     binp = ctx.go_build("./cmd/c01")
     if ctx.replay:
         d = json.load(open(ctx.replay))
@@ -70,11 +72,11 @@ def run(ctx):
         runs.append(("q221", cfg_text("LiskBFTTree_q", DumpEvery=400, DumpFinalEvery=20), hc221, dict(timeout=900)))
     else:
         runs.append(("t221", cfg_text("LiskBFTTree_q", MaxBlocks=10, MaxHeight=7, DumpEvery=3000, DumpFinalEvery=150), hc221, dict(timeout=3000)))
-        runs.append(("t221pc2", cfg_text("LiskBFTTree_q", InitPCT=2, MaxBlocks=10, MaxHeight=7, DumpEvery=3000, DumpFinalEvery=150),
+        runs.append(("t221pc2", cfg_text("LiskBFTTree_q", InitPCT=2, MaxBlocks=9, MaxHeight=7, DumpEvery=2000, DumpFinalEvery=150),
                      dict(hc221, initPCT=2), dict(timeout=3000)))
-        runs.append(("t1111", cfg_text("LiskBFTTree_q", NVal=4, Byz="{4}", InitW="W1111", InitPCT=3, MaxBlocks=9, MaxHeight=6,
+        runs.append(("t1111", cfg_text("LiskBFTTree_q", NVal=4, Win=12, Byz="{4}", InitW="W1111", InitPCT=3, MaxBlocks=9, MaxHeight=6,
                                        DumpEvery=3000, DumpFinalEvery=150),
-                     dict(nval=4, win=9, initW=[1, 1, 1, 1], initPCT=3, choices=[], byz=[4]), dict(timeout=3000)))
+                     dict(nval=4, win=12, initW=[1, 1, 1, 1], initPCT=3, choices=[], byz=[4]), dict(timeout=3000)))
         runs.append(("tnoncontra", cfg_text("LiskBFTTree_q", HonestMode='"noncontra"', MaxBlocks=8, MaxHeight=6, DumpEvery=3000, DumpFinalEvery=150),
                      hc221, dict(timeout=3000)))
         runs.append(("tchg", cfg_text("LiskBFTTree_q", ParamChoices="Choices221", MaxChg=1, MaxBlocks=8, MaxHeight=6, DumpEvery=3000, DumpFinalEvery=150),
@@ -114,12 +116,16 @@ def run(ctx):
         if not ctx.violations and (not r["violation"]):
             raise Inconclusive("control model (Byzantine weight >= 1/3) found no double finalisation: bounds too small, run is vacuous")
         ctx.states -= r["distinct"]; ctx.transitions -= r["generated"]
+    # system level: a network of honest real nodes (spec/Net.tla; TLC checks Agreement and TreeSafety on the model):
+    # the finalized prefixes of all real nodes agree on real block ids, BFT heights per node follow the model
+    from props import net
+    netcov = net.run_net(ctx, lambda k: k.startswith(("net:agreement", "net:heights-mismatch")))
     if not ctx.violations and (total["paths_with_finality"] == 0):
         raise Inconclusive("no replayed path reached finality: vacuous")
     cov = dict(traces_validated_against_impl=total["distinct_paths"], samples=samples,
                replayed_trees=total["trees"], replayed_steps=total["steps"],
                paths_with_finality=total["paths_with_finality"], trace_events_validated=total.get("trace_events", 0), real_pairs_checked_for_safety=total["pairs_checked"],
-               exhaustive=True,
+               exhaustive=True, **netcov,
                rule="TLC enumerates every fork tree inside the bounds of each cfg and checks Safety in every state; "
                     "sampled full trees (biased to trees with finality) are replayed block by block through the real liskbft.Module")
     finish(ctx, LEVEL, cov, assumptions=[
